@@ -34,11 +34,11 @@ CHECKS = {
    note="Trusted: the sizes-only half has no scheduler or fault in it (the property's quantifier asks for histories on sizes only); that the real writer is idle with planner work pending until the next batch is legal (the merger is woken only by a completed persist) and is only counted.",
    technique="deterministic simulation with in-situ plan monitors at the planner seam + seeded sizes-only discrete-event histories round the real planner"),
  "C11": dict(level="exploration", ref="3/C11",
-   text="Seeded search over simulated runs on the file-system directory with retention N in {1,2,3}, readers held from the writer and from the live directory, second-writer attempts; after every window with a directory mutation the real directory is scanned and every snapshot parsed: retention, no needed segment file missing or successfully removed, held readers stable, every loaded item and every descriptor released exactly once by the end, immediate reopen after Close, second writer refused. Invariants are evaluated at every quiescent point of every explored run; runs are sampled.",
+   text="Seeded search over simulated runs on the file-system directory with retention N in {1,2,3}, readers held from the writer and from the live directory, second-writer attempts; after every window with a directory mutation the real directory is scanned and every snapshot parsed: retention, no needed segment file missing or successfully removed, every committed snapshot whose file is still on disk keeps its segment files (a concurrent OpenReader can hold a snapshot file across clean-ups, so removals do fail), held readers stable, every loaded item and every descriptor released exactly once by the end, clean Close + OpenWriter also in mid-run, immediate reopen after Close, second writer refused. Invariants are evaluated at every quiescent point of every explored run; runs are sampled.",
    note="Trusted: directory state is observed at window boundaries (one directory operation per window), not in the middle of an operation; handle accounting relies on the Load closer wrapper and the os hook.",
    technique="deterministic simulation: directory/handle/lock invariants evaluated after every directory operation of seeded runs"),
  "C15": dict(level="exploration", ref="3/C15",
-   text="Seeded search under a -race build: concurrent windows release a seeded set of 2-6 parked actors at once (batches, several clients searching one shared Reader incl. optimised conjunction/disjunction, stored-field loads, MemoryUsed, reader acquisition, persister, merger, closer) so that overlapping regions carry no happens-before edge and the race detector reports any conflicting pair regardless of real timing; Close is issued at arbitrary scheduled moments once callers have returned and must terminate (deterministic hang verdict) and leave a directory that reopens with every acknowledged batch. Two genuine races are listed known findings with call-site signatures and are exercised by dedicated run variants only.",
+   text="Seeded search under a -race build: concurrent windows release a seeded set of 2-6 parked actors at once (batches, several clients searching one shared held Reader and several clients searching a fresh Writer.Reader() at once - first use of a snapshot's caches - incl. optimised conjunction/disjunction and generated queries, stored-field loads, MemoryUsed, reader acquisition, persister, merger, closer) so that overlapping regions carry no happens-before edge and the race detector reports any conflicting pair regardless of real timing; Close is issued at arbitrary scheduled moments once callers have returned and must terminate (deterministic hang verdict; a loop that spins instead of blocking is caught by a wall-clock watchdog in the worker and reported as livelock with the spinning function) and leave a directory that reopens with every acknowledged batch. Two genuine races are listed known findings with call-site signatures and are exercised by dedicated run variants only.",
    note="Trusted: the race detector (no false positives); which regions overlap is decided by the tape but concurrent windows need not replay exactly, so a race report is the verdict itself; for ice v2 the harness serialises stored-field access (shield) outside the dedicated probe; index.Writer.Stats() is called only in its dedicated probe.",
    technique="deterministic simulation with concurrent-window releases under the Go race detector; scheduled Close with bounded-step termination and reopen oracle"),
  "C12": dict(level="fault_enumeration", ref="3/C12",
@@ -50,11 +50,11 @@ CHECKS = {
    note="Trusted: the os overlay hooks (pass-through unless a fault is armed); boundary set for k instead of every k; single caller.",
    technique="I/O fault injection at the os seam (go build -overlay hook), exhaustive enumeration of fault points against the real directory implementation"),
  "C14": dict(level="fault_enumeration", ref="3/C14",
-   text="Base runs sampled by seed; each is re-executed from its own tape with a fault placed on an operation of its recorded directory trace (every operation x placement {before any byte, after a partial write, after the full write, load/remove/list/lock/setup error}; quick tier a seeded subset per base run), plus sticky spans and pairs. Per faulted run: no panic, deterministic no-hang verdict, Batch errors only when a fault fired, AsyncError fired for failed persister/merger steps, monitor and held readers equal the abstract index of applied batches, bounded completion once faults stop, reopened index equals the abstract index, and crash images during and after the fault pass the C03 oracle.",
+   text="Base runs sampled by seed; each is re-executed from its own tape with a fault placed on an operation of its recorded directory trace (every operation x placement {before any byte, after a partial write, after the full write, load/remove/list/lock/setup error}; quick tier a seeded subset per base run), plus sticky spans and pairs. Per faulted run: no panic, deterministic no-hang verdict, Batch errors only when a fault fired, AsyncError fired for failed persister/merger steps, monitor and held readers equal the abstract index of applied batches, bounded completion once faults stop (a busy loop is a livelock verdict), every Batch's persisted callback invoked exactly once by the time the writer is idle, the directory invariants of C11 also under injected Remove errors, reopened index equals the abstract index, and crash images during and after the fault pass the C03 oracle. A single injected error on a load inside OpenWriter/OpenReader is the listed known finding (silent fall-back to an older snapshot).",
    note="Trusted: determinism of the prefix up to the faulted operation (self-test); faults are injected at the Directory seam and at the os seam only, never on the harness's own probes; 'surfaced' is checked as 'AsyncError fired at least once when a background step failed'.",
    technique="deterministic simulation: replay of a recorded run with enumerated single/paired/sticky I/O fault placements, containment + bounded-liveness + crash oracles"),
  "C04": dict(level="exploration", ref="3/C04",
-   text="Seeded search over simulated runs in which client actors hold several Readers of different ages open while batches, merges, persist swaps, unlinks and Close are scheduled between their reads; the first full read (count, match-all, stored fields, id lookup, sorted top-N over document values, aggregations, dictionary scan, phrase/boolean/conjunction/disjunction/range/prefix queries) is the baseline (checked against the abstract index at acquisition) and every later read must be identical; a fault of the process is reported as the violation. Sampling of schedules, not proof.",
+   text="Seeded search over simulated runs in which client actors hold several Readers of different ages open while batches, merges, persist swaps, unlinks and Close are scheduled between their reads; the first full read (count, match-all, stored fields, id lookup, sorted top-N over document values, aggregations, dictionary scan, fixed and per-run generated queries of every public type, with scores) is the baseline (checked against the abstract index at acquisition); the reads are repeated at once in rotated order (answers must not depend on search history) and every later read, in yet another order, must be identical; a fault of the process is reported as the violation. Sampling of schedules, not proof.",
    note="Trusted: gate wrappers delegate; regions between gates are atomic w.r.t. other gated actors; reads cover the listed query kinds only.",
    technique="deterministic simulation: held readers re-read across gated background steps, baseline-equality oracle"),
  "C05": dict(level="exploration", ref="3/C05",
